@@ -350,7 +350,7 @@ fn probe_tag(p: Probe) -> &'static str {
 }
 
 /// signature of an Err / panic outcome: the message (digits squashed), never the location
-fn error_signature(prefix: &str, kind: &str, e: &str, rc: &ReqCase) -> String {
+fn error_signature(corpus: &Corpus, prefix: &str, kind: &str, e: &str, rc: &ReqCase) -> String {
     let msg = e.split(" @ ").next().unwrap_or(e);
     if msg.contains("postcard deserialize") && has_tophits_without_docvalues(&rc.aggs) {
         // `DocSortValuesAndFields::doc_value_fields` is `skip_serializing_if = "HashMap::is_empty"`,
@@ -362,6 +362,17 @@ fn error_signature(prefix: &str, kind: &str, e: &str, rc: &ReqCase) -> String {
     }
     if msg.contains("out of range for slice") && rc.probe == Probe::TopHitsFrom {
         return "tophits-from-beyond-hits/panic-in-into_final_result:drain-out-of-range".to_string();
+    }
+    if msg.contains("fetch_block requires docs sorted ascending without duplicates") {
+        let mut ct = BTreeSet::new();
+        for (_, a) in &rc.aggs {
+            cond_tags(a, corpus, &mut ct);
+        }
+        if ct.contains("terms-numeric-missing-with-sub-aggregation/") {
+            // documents that take the `missing` key are appended after the documents that really
+            // carry that value: the doc id block handed to the sub aggregation is not ascending
+            return "terms-numeric-missing-with-sub-aggregation/unsorted-doc-ids-forwarded-to-sub-aggregation:debug_assert-in-fetch_block".to_string();
+        }
     }
     if msg.contains("index out of bounds") && e.contains("bucket/composite/collector.rs") {
         return "composite-as-sub-aggregation/panic:index-out-of-bounds-in-add_intermediate_bucket_result".to_string();
@@ -381,15 +392,20 @@ fn cond_tags(a: &Agg, corpus: &Corpus, out: &mut BTreeSet<&'static str>) {
     if let Agg::Composite { sources, .. } = a {
         for s in sources {
             let histo = matches!(s.kind, CK::Hist(_) | CK::DateHist(..));
-            if histo && ((s.missing_order == 2 && s.asc) || (s.missing_order == 1 && !s.asc)) {
+            if histo && s.missing_order == 2 {
                 // `None => precompute_missing_after_key(true, ..)` makes the first page skip everything
-                out.insert("composite-histogram-source-missing_order-skips-every-bucket/");
+                out.insert("composite-histogram-source-missing_order-last-skips-every-value/");
             }
             if matches!(s.kind, CK::DateHist(..))
                 && corpus.docs.iter().any(|d| d.get(Fd::Fdt).iter().any(|v| matches!(v, V::D(ns) if *ns < 0)))
             {
                 out.insert("composite-date_histogram-negative-timestamp/");
             }
+        }
+    }
+    if let Agg::Terms { missing: Some(m), subs, .. } = a {
+        if m.is_number() && !subs.is_empty() {
+            out.insert("terms-numeric-missing-with-sub-aggregation/");
         }
     }
     if let Some(subs) = a.subs() {
@@ -407,33 +423,76 @@ struct Part {
     nparts: usize,
 }
 
+struct Facts<'a> {
+    corpus: &'a Corpus,
+    all: &'a [usize],
+    matching: &'a [usize],
+    rc: &'a ReqCase,
+}
+
+/// does the alternative oracle explain the whole result of top level aggregation `top`?
+fn alt_explains(f: &Facts, top: &str, got: &Value, per_value: bool, trunc_date: bool) -> bool {
+    let Some((_, a)) = f.rc.aggs.iter().find(|(n, _)| n == top) else {
+        return false;
+    };
+    let env = Env {
+        corpus: f.corpus,
+        all_docs: f.all,
+        per_value,
+        trunc_date,
+    };
+    let exp = eval_agg(a, f.matching, &env);
+    let mut c = Cmp::new();
+    c.cmp(&exp, &got[top]);
+    c.out.is_empty()
+}
+
 fn report_mismatches(
-    corpus: &Corpus,
+    f: &Facts,
     rep: &mut Report,
     mis: &[Mis],
     prefix: &str,
-    rc: &ReqCase,
     part: &Part,
+    got: &Value,
     witness: &Value,
 ) {
+    let rc = f.rc;
+    let corpus = f.corpus;
     let take = if rc.probe == Probe::None { 3 } else { 1 };
+    let mut reported: BTreeSet<String> = BTreeSet::new();
     for m in mis.iter().take(take) {
-        let mut tags = String::from(probe_tag(rc.probe));
-        if rc.probe == Probe::None {
-            if let Some((_, a)) = rc.aggs.iter().find(|(n, _)| *n == m.top) {
-                let mut f = vec![];
-                a.fields(&mut f);
-                if f.iter().any(|x| part.absent.contains(x)) {
-                    tags.push_str("absent-column/");
-                }
-                let mut ct = BTreeSet::new();
-                cond_tags(a, corpus, &mut ct);
-                for t in ct {
-                    tags.push_str(t);
-                }
-            }
+        let mut ct = BTreeSet::new();
+        let mut absent = false;
+        if let Some((_, a)) = rc.aggs.iter().find(|(n, _)| *n == m.top) {
+            cond_tags(a, corpus, &mut ct);
+            let mut fl = vec![];
+            a.fields(&mut fl);
+            absent = fl.iter().any(|x| part.absent.contains(x));
         }
-        let sig = format!("{prefix}/{tags}{}:{}", m.path, m.what);
+        let sig = if rc.probe == Probe::MvBucket {
+            if alt_explains(f, &m.top, got, true, false) {
+                "multivalued-bucket-field/values-counted-instead-of-documents".to_string()
+            } else {
+                format!("{prefix}/multivalued-bucket-field/{}:{}", m.path, m.what)
+            }
+        } else if rc.probe != Probe::None {
+            format!("{}{}:{}", probe_tag(rc.probe), m.path, m.what)
+        } else if m.path.ends_with("tophits") && m.path.contains('>') && corpus.docs.len() > 2048 && m.what.starts_with("hits") {
+            // TopHitsSegmentCollector::prepare_max_bucket uses Vec::resize, which truncates the
+            // per-bucket state when a later flush of the parent carries a smaller max bucket id
+            "tophits-sub-aggregation/hits-lost-after-second-flush:prepare_max_bucket-resize-truncates".to_string()
+        } else if m.what == "order-key-f64-mixed" {
+            "terms/_key-order-on-f64-field:integral-keys-sorted-before-fractional-keys".to_string()
+        } else if ct.contains("composite-histogram-source-missing_order-last-skips-every-value/") {
+            "composite/histogram-source-with-missing_order-last:first-page-skips-every-value".to_string()
+        } else if ct.contains("composite-date_histogram-negative-timestamp/") && alt_explains(f, &m.top, got, false, true) {
+            "composite/date_histogram-source:negative-timestamps-truncated-toward-zero".to_string()
+        } else {
+            format!("{prefix}/{}{}:{}", if absent { "absent-column/" } else { "" }, m.path, m.what)
+        };
+        if !reported.insert(sig.clone()) {
+            continue;
+        }
         let mut w = witness.clone();
         w["mismatch"] = json!(m.detail);
         w["partition"] = json!(part.shape);
@@ -549,6 +608,12 @@ fn case_fn(quick: bool) -> impl Fn(u64, &mut Rng, &mut Report) + Sync {
                 "matching_docs": matching.len(), "request_index": ri,
             });
             let tq = q_build(&sch, &q);
+            let facts = Facts {
+                corpus: &corpus,
+                all: &all,
+                matching: &matching,
+                rc: &rc,
+            };
             let mut direct_ok = true;
             let mut reference: Option<Value> = None;
             for (pi, part) in parts.iter().enumerate() {
@@ -624,7 +689,7 @@ fn case_fn(quick: bool) -> impl Fn(u64, &mut Rng, &mut Report) + Sync {
                             w["partition"] = json!(part.shape);
                             w["variant"] = json!(variant);
                             w["kinds"] = json!(shape);
-                            rep.violation(error_signature(prefix, kind, e, &rc), w);
+                            rep.violation(error_signature(&corpus, prefix, kind, e, &rc), w);
                             if pi == 0 {
                                 direct_ok = false;
                             }
@@ -636,7 +701,7 @@ fn case_fn(quick: bool) -> impl Fn(u64, &mut Rng, &mut Report) + Sync {
                                 let mut w = witness.clone();
                                 w["variant"] = json!(variant);
                                 w["got"] = json!(got.to_string().chars().take(1500).collect::<String>());
-                                report_mismatches(&corpus, rep, &c.out, prefix, &rc, part, &w);
+                                report_mismatches(&facts, rep, &c.out, prefix, part, got, &w);
                                 if pi == 0 {
                                     direct_ok = false;
                                 }
